@@ -93,8 +93,16 @@ def gc_cache(keep, max_entries=4):
         shutil.rmtree(os.path.join(root, e), ignore_errors=True)
 
 
+_PINS_OK = [None]
+
+
 def load(caps=None, default_cap=2, ws=None):
     ws = ws or prepare()
+    if _PINS_OK[0] is None:
+        from . import pins
+        _PINS_OK[0] = pins.check()
+    if _PINS_OK[0]:
+        raise Inconclusive('std model out of date: the pinned rust-src items changed: ' + ', '.join(_PINS_OK[0][:4]))
     text = open(ws['mir_path']).read()
     bodies, consts = mir.parse(text)
     sources = {}
